@@ -137,8 +137,9 @@ class RecordingDelegate(httputil.HTTPServerConnectionDelegate):
     """Server delegate that records the per-message delegate protocol (C04/C05): events list of
     (msg_no, 'headers'|'data'|'finish'|'close', payload).  respond: when to answer
     ('finish' = after the whole body, 'headers' = as soon as headers arrive, None = never)."""
-    def __init__(self, result, respond="finish", response_body=b"ok", set_max_body=None):
+    def __init__(self, result, respond="finish", response_body=b"ok", set_max_body=None, stall_data=False):
         self.result, self.respond, self.response_body, self.set_max_body = result, respond, response_body, set_max_body
+        self.stall_data = stall_data        # data_received returns an awaitable that never completes (a consumer that has stopped taking data)
         self.n = 0
         result.events = []
         result.closed_conns = 0
@@ -170,6 +171,9 @@ class _Msg(httputil.HTTPMessageDelegate):
 
     def data_received(self, chunk):
         self.o.result.events.append((self.no, "data", bytes(chunk)))
+        if self.o.stall_data:
+            import asyncio
+            return asyncio.get_event_loop().create_future()
 
     def finish(self):
         self.o.result.events.append((self.no, "finish", None))
